@@ -29,6 +29,8 @@ def gen_case(tier, seed, shard, i):
         spec = GC.gen_cascade(rnd, n=rnd.choice([2, 2, 3]), mapped=False)
         for ei, e in enumerate(spec.exprs):
             info = GC._einsum_info(spec, e)
+            if sum(1 for e2 in spec.exprs if e2.out.name == e.out.name) > 1:
+                continue      # one mapping entry would serve both writers of this output
             if info["ranks"]:
                 spec = M.add_shape_partitioning(rnd, spec, info, ordered=True, ei=ei)
         spec.tags.append("cascade-partitioned")
